@@ -7,6 +7,10 @@
       incDataMsgSend            writeFrame, after tr.Write returned nil, data only        (WriteOk)
       incDataMsgRecv            DeliverOwnedFrame, after decode; dispatchFrame calls it
                                 only for a data frame while State()==Selected               (Route)
+                                [PeerSend g f] stands for one MESSAGE: a SECS-I block the peer
+                                transmits again because it missed the ACK (E4 RTY) is dropped by
+                                the assembler before DeliverOwnedFrame - no step of this LTS, recv
+                                unchanged; likewise a block the library retransmits is one WriteOk
       inc/decDataMsgInflight    sendWaitReply, W-bit data, after writeFrame returned nil /
                                 one defer covering all four select branches                 (Arm / Complete* )
       incDataMsgErr             sendWaitReply+sendNoReply: data and isCountedSendErr(write error);
